@@ -112,11 +112,11 @@ func runC11ScanFault(ci interface{}, st *CaseStats) error {
 }
 
 var specC11ScanFault = &Spec{
-	ID:   "C11",
-	Rule: "TiKV scan-fault mode: case = 100..700 keys in one range, an iterator (forward / backward, optionally limited) and the index of the scan request — counted from the iterator's creation; the client fetches 256 keys per request — that the cluster answers with an error, injected between the TiKV client and the mock cluster. Oracle: the iteration yields the keys in order and either reports an error or delivers all of them; it never ends like an exhausted range after fewer keys. Non-trivial = the error surfaced at a later step of the iteration (not at its creation); distinct = SHA-1 of the case",
-	Gen:  genC11ScanFault,
-	New:  func() interface{} { return &c11ScanFaultCase{} },
-	Run:  runC11ScanFault,
+	ID:      "C11",
+	Rule:    "TiKV scan-fault mode: case = 100..700 keys in one range, an iterator (forward / backward, optionally limited) and the index of the scan request — counted from the iterator's creation; the client fetches 256 keys per request — that the cluster answers with an error, injected between the TiKV client and the mock cluster. Oracle: the iteration yields the keys in order and either reports an error or delivers all of them; it never ends like an exhausted range after fewer keys. Non-trivial = the error surfaced at a later step of the iteration (not at its creation); distinct = SHA-1 of the case",
+	Gen:     genC11ScanFault,
+	New:     func() interface{} { return &c11ScanFaultCase{} },
+	Run:     runC11ScanFault,
 	Engines: []string{EngTiKV, EngTiKVMet},
 }
 
